@@ -129,6 +129,13 @@ func TestC01Rapid(t *testing.T) {
 			o.ElNames = []string{"é", "中文", "имя"} // multi-byte names: the scanner counts bytes, the grammar counts characters
 			o.AtNames = []string{"ключ", "x"}
 		}
+		hostileNames := !prefixed && !unicodeNames && shape != "doc:many-attributes" && rapid.IntRange(0, 9).Draw(rt, "hostile-names") == 9
+		if hostileNames {
+			// every kind of name character: '-' and '.' followed by digits and letters, '_', digits
+			o.ElNames = []string{"a-1", "b.c", "_x", "a1", "a-b", "v1.2"}
+			o.AtNames = []string{"id-2", "x.y"}
+			unicodeNames = true
+		}
 		keywordNames := !prefixed && !unicodeNames && shape != "doc:many-attributes" && rapid.IntRange(0, 9).Draw(rt, "keyword-names") == 9
 		if keywordNames {
 			// elements and attributes named like operators, axes, node types and functions:
